@@ -54,7 +54,7 @@ func c18Check(c *Ctx, p *Prog, m *Model) {
 			n++
 			ok := false
 			if call, isC := fs.Val.(*ssa.Call); isC && calleeOf(call) == cp {
-				if _, _, f, isF := fieldLoad(strip(call.Common().Args[0])); isF && f.Name() == "File" {
+				if _, _, f, isF := fieldLoad(strip(call.Common().Args[0])); isF && nm(f) == "File" {
 					ok = true
 				}
 			}
@@ -116,7 +116,7 @@ func c18Check(c *Ctx, p *Prog, m *Model) {
 		for _, g := range guardsOf(b) {
 			cond, neg := normCond(g.If.Cond)
 			if call, ok := cond.(*ssa.Call); ok {
-				if cal := calleeOf(call); cal != nil && (cal.Name() == "IsAnyBitsSet" || cal.Name() == "IsAllBitsSet") {
+				if cal := calleeOf(call); cal != nil && (nm(cal) == "IsAnyBitsSet" || nm(cal) == "IsAllBitsSet") {
 					if v, ok := constInt(call.Common().Args[0]); ok && v == flagPriv && (g.Succ == 0) != neg {
 						return true
 					}
@@ -164,7 +164,7 @@ func c18Check(c *Ctx, p *Prog, m *Model) {
 			if ok1 && ok2 && ek.Tuple == ev.Tuple {
 				if nx, ok := ek.Tuple.(*ssa.Next); ok {
 					if rg, ok := nx.Iter.(*ssa.Range); ok {
-						if g, ok := globalLoad(rg.X); ok && g.Name() == "knownPathMap" {
+						if g, ok := globalLoad(rg.X); ok && nm(g) == "knownPathMap" {
 							tableRewrite = call
 						}
 					}
@@ -301,7 +301,7 @@ func c18Check(c *Ctx, p *Prog, m *Model) {
 				continue
 			}
 			if cal := calleeOf(call); cal != nil && cal.String() == "strings.HasPrefix" {
-				if g, ok := globalLoad(call.Common().Args[1]); ok && g.Name() == "homeDir" && isPrivGuard(b) {
+				if g, ok := globalLoad(call.Common().Args[1]); ok && nm(g) == "homeDir" && isPrivGuard(b) {
 					// the true edge rewrites to "~"+rest
 					home = true
 				}
@@ -313,7 +313,7 @@ func c18Check(c *Ctx, p *Prog, m *Model) {
 		var deleters []string
 		for _, fn := range p.RepoFuncs() {
 			for _, gs := range globalStores(fn) {
-				if gs.G.Name() == "knownPathMap" && (gs.Kind == "delete" || gs.Kind == "clear" || (gs.Kind == "store" && !strings.HasPrefix(fn.Name(), "init"))) {
+				if nm(gs.G) == "knownPathMap" && (gs.Kind == "delete" || gs.Kind == "clear" || (gs.Kind == "store" && !strings.HasPrefix(nm(fn), "init"))) {
 					deleters = append(deleters, shortName(fn))
 				}
 			}
@@ -326,11 +326,11 @@ func c18Check(c *Ctx, p *Prog, m *Model) {
 	// init seeds homeDir from os.UserHomeDir
 	seeded := false
 	for _, fn := range p.RepoFuncs() {
-		if !strings.HasPrefix(fn.Name(), "init") {
+		if !strings.HasPrefix(nm(fn), "init") {
 			continue
 		}
 		for _, gs := range globalStores(fn) {
-			if gs.G.Name() == "homeDir" {
+			if nm(gs.G) == "homeDir" {
 				for _, s := range sources(gs.Val) {
 					if ex, ok := s.(*ssa.Extract); ok {
 						if call, ok := ex.Tuple.(*ssa.Call); ok {
@@ -345,11 +345,11 @@ func c18Check(c *Ctx, p *Prog, m *Model) {
 	}
 	r.Check(seeded, "R18.4", "homeDir:init", "-", "homeDir is the user's home directory", "homeDir is not initialised from os.UserHomeDir")
 	for _, fn := range p.RepoFuncs() {
-		if strings.HasPrefix(fn.Name(), "init") {
+		if strings.HasPrefix(nm(fn), "init") {
 			continue
 		}
 		for _, gs := range globalStores(fn) {
-			if gs.G.Name() == "homeDir" {
+			if nm(gs.G) == "homeDir" {
 				r.Bad("R18.4", "homeDir:store:"+shortName(fn), p.Pos(instrPos(gs.Instr)), "homeDir is modified at run time by %s", shortName(fn))
 			}
 		}
@@ -365,7 +365,7 @@ func c18Check(c *Ctx, p *Prog, m *Model) {
 	for fn := range staticReach(roots, func(f *ssa.Function) bool { return f.Pkg != p.Slog && f.Parent() == nil }) {
 		var probs []string
 		for _, gs := range globalStores(fn) {
-			probs = append(probs, "stores to "+gs.G.Name())
+			probs = append(probs, "stores to "+nm(gs.G))
 		}
 		for _, cs := range callsIn(fn) {
 			if len(cs.Common().Args) == 0 {
@@ -373,7 +373,7 @@ func c18Check(c *Ctx, p *Prog, m *Model) {
 			}
 			if g, ok := cs.Common().Args[0].(*ssa.Global); ok && g.Pkg == p.Slog {
 				if cal := calleeOf(cs); cal != nil && cal.Signature.Recv() != nil {
-					probs = append(probs, "calls "+cal.String()+" on package-level "+g.Name())
+					probs = append(probs, "calls "+cal.String()+" on package-level "+nm(g))
 				}
 			}
 		}
